@@ -60,6 +60,7 @@ def cases(tier, seed, shard, nshards):
                "susp": susp, "fail": sorted(rng.sample(range(1, 5), rng.choice([0, 0, 1, 2]))),
                "deleter": rng.choice([None, None, 0, 1, 2, 3]) if mode != "dfs" else rng.choice([None, None, 0, 1]),
                "cancel_task": rng.randrange(nt) if rng.random() < 0.4 else None,
+               "lock_susp": rng.choice([[0, 0], [0, 0], [1, 0], [0, 1]]),
                "runs": DFS_LIMIT[tier] if mode == "dfs" else RANDOM_RUNS[tier], "seed": rng.randrange(1 << 30)}
 
 
@@ -181,15 +182,17 @@ async def _aw(obj):
 
 class RegLock(VLock):
     registry = []
+    SUSP = (0, 0)  # (before acquiring, after releasing): locks that are scheduling points themselves
 
     def __init__(self):
-        super().__init__(f"cp{len(RegLock.registry)}")
+        super().__init__(f"cp{len(RegLock.registry)}", susp_enter=RegLock.SUSP[0], susp_exit=RegLock.SUSP[1])
         RegLock.registry.append(self)
 
 
 def execute(case, choose, cancel_at=None):
     CTX.reset()
     RegLock.registry = []
+    RegLock.SUSP = tuple(case.get("lock_susp", (0, 0)))
     clock = {"t": 0}
     runs = {}  # rid -> dict(start, end, outcome, value)
     dels = []
